@@ -78,6 +78,8 @@ def run(ctx, run):
         run.holds("RF-NEG", "RF-NEG:%s:examined" % fn, "%d decode call site(s); every assigned result is read on every path"
                   % a.n_sources, "%s:%d" % (f.file, f.line)) if not list(neg.unexamined(a)) else None
     run.floor("Hamming decode call sites in the IDL/PFC feed paths", n_src, 10)
+    _channel_filter(ctx, run, P.need("vbi_idl_demux_feed", IDL))
+    _ci_range(ctx, run)
 
     # ---- RF-IVL --------------------------------------------------------------------------
     n_sub = 0
@@ -465,3 +467,54 @@ def _histbyte(ctx, run, f):
                           ex.loc(f, i), witness={"byte": tname, "tracker": h})
         else:
             run.holds("RF-CORR", key, "every iteration either finds %s == %s or stores %s = %s" % (tname, h, h, tname), ex.loc(f, i))
+
+
+def _channel_filter(ctx, run, f):
+    run.touch(f)
+    n = 0
+    for bid, i in flow.all_events(f):
+        e = f.exprs[i]
+        if e["k"] == "call" and e.get("callee") in ("idl_a_demux_feed", "idl_b_demux_feed"):
+            n += 1
+            ats = atoms.atoms_at(f, i)
+            ch = any(a.rel == "==" and a.R is not None and a.R.const is None and
+                     ((a.L.has("_vbi_idl_demux.channel") and a.L.node is not None and f.exprs[ex.skip(f, a.L.node)]["k"] in ("mem", "cast")
+                       and not a.L.locals - set() and len(a.L.fields) == 1 and a.R.locals and not a.R.fields and _plain(f, a.R.node) and _plain(f, a.L.node))
+                      or (a.R.has("_vbi_idl_demux.channel") and len(a.R.fields) == 1 and a.L.locals and not a.L.fields
+                          and _plain(f, a.L.node) and _plain(f, a.R.node))) for a in ats)
+            des = any(a.rel == "==" and ((a.R is not None and a.R.const == 15) or a.L.const == 15) for a in ats)
+            key = "RF-DOM:vbi_idl_demux_feed:%s:channel-filter" % e["callee"]
+            if ch and des:
+                run.holds("RF-DOM", key, "the format handler runs only for designation 15 and `channel == dx->channel` (all four bits)",
+                          ex.loc(f, i))
+            else:
+                run.violation("RF-DOM", key, "the format handler is not dominated by %s: packets of another data channel (packet "
+                              "30 vs 31 of the same magazine differ in bit 3 only) are fed into this channel's stream"
+                              % " and ".join(x for x, ok in (("`channel == dx->channel` on the whole decoded channel", ch),
+                                                             ("designation == 15", des)) if not ok), ex.loc(f, i),
+                              witness={"dominating": [repr(a) for a in ats]})
+    run.floor("IDL format handler calls", n, 1)
+
+
+def _plain(f, node):
+    """node is a variable / field read, possibly through integer casts (no masking, no arithmetic)."""
+    if node is None:
+        return False
+    j = ex.skip(f, node)
+    e = f.exprs[j]
+    while e["k"] == "cast":
+        j = ex.skip(f, e["c"][0])
+        e = f.exprs[j]
+    return e["k"] in ("ref", "mem")
+
+
+def _ci_range(ctx, run):
+    from .. import fieldinv
+    inv = fieldinv.Invariants(ctx, [dict(rec="_vbi_pfc_demux", field="ci", lo=0, hi=15, also=(256,),
+                                         why="256 = 'matches nothing' after a reset; otherwise the next expected page continuity index, "
+                                             "compared with the 4 bit CI of the stream")])
+    if inv.missing:
+        raise AnalysisBroken("vbi_pfc_demux.ci no longer exists")
+    inv.install()
+    n = inv.verify(run)
+    run.floor("writers of vbi_pfc_demux.ci", sum(n.values()), 2)
